@@ -603,7 +603,8 @@ func TestVerifC16Daemon(t *testing.T) {
 				case 9:
 					dbSend(d, cl, verifReq{Path: "/users/", Cookies: verifCk(ck)}, false)
 				case 10:
-					if s, err := c20Connect(fmt.Sprintf("127.0.0.1:%d", d.AdminPort), true); err == nil {
+					if s, err := c20Dial(fmt.Sprintf("127.0.0.1:%d", d.AdminPort), false); err == nil {
+						s.startReading()
 						time.Sleep(time.Duration(5+rng.Intn(30)) * time.Millisecond)
 						s.conn.Close()
 					}
